@@ -9,6 +9,7 @@ rsync -a --exclude .git /repo/ $scratch/
 if [ "$1" = "-e" ]; then
   sed -i "$2" $scratch/$3 || { echo "sed failed"; rm -rf $scratch; exit 3; }
   (cd $scratch && diff -u /repo/$3 $3 | head -20)
+  if cmp -s /repo/$3 $scratch/$3; then echo "MUTATION DID NOT APPLY"; rm -rf $scratch; exit 3; fi
 else
   (cd $scratch && patch -p1 --quiet < "$1") || { echo "patch failed"; rm -rf $scratch; exit 3; }
 fi
